@@ -2,6 +2,7 @@
 (engine E1; DESIGN.md §5 C04)."""
 import os
 import re
+import time
 
 from props import e1util
 from props.e1util import unhex
@@ -94,12 +95,18 @@ def run(ctx):
             run_wall(ctx, b, corr_broken)
         # search phase: a tie or a correspondence broke but no oracle failed → look harder
         if (ctx.broken_ties or corr_broken) and not ctx.violations:
-            ctx.log("tie/correspondence broken without an oracle failure: searching with 10x the budget")
-            for s in range(1, 4):
-                ctx.seed = ctx.seed + 1000 * s
-                run_all(ctx, binp, [], scale=4, search=True)
+            limit = ctx.budget(60, 600)
+            ctx.log("tie/correspondence broken without an oracle failure: searching other seeds for at most %d s" % limit)
+            t_end = time.time() + limit
+            seed0 = ctx.seed
+            for s in range(1, 9):
+                if time.time() > t_end - 15:
+                    break
+                ctx.seed = seed0 + 1000 * s
+                run_all(ctx, binp, [], scale=1, search=True, t_end=t_end)
                 if ctx.violations:
                     break
+            ctx.seed = seed0
     if (ctx.broken_ties or corr_broken) and not ctx.violations:
         ctx.broken_without_input(ctx.broken_ties + corr_broken,
                                  "search: %d generated cases under the direct oracles (never early, nothing due "
@@ -107,7 +114,7 @@ def run(ctx):
                                  % ctx.evaluations)
 
 
-def run_all(ctx, binp, corr_broken, scale=1, search=False):
+def run_all(ctx, binp, corr_broken, scale=1, search=False, t_end=None):
     corpus = ":".join(e1util.corpus_files("C04", lambda f: "numeric" in os.path.basename(f) or "num_" in os.path.basename(f)))
     plans = [
         ("TestVerifNumCorr", "num", ctx.budget(8000, 40000) * scale, {"VERIF_CORPUS": corpus}, "NUM-HIST"),
@@ -118,7 +125,14 @@ def run_all(ctx, binp, corr_broken, scale=1, search=False):
         ("TestVerifUniqCorr", "uniq", ctx.budget(6000, 40000) * scale, {}, None),
     ]
     for test, stream, n, env, tag in plans:
-        ok, ops, impl, out = e1util.run_corr(ctx, binp, test, stream, n, env, timeout=ctx.budget(400, 1500))
+        tmo = ctx.budget(400, 1500)
+        if t_end is not None:
+            if time.time() > t_end - 5:
+                return
+            tmo = max(10, int(t_end - time.time()))
+        ok, ops, impl, out = e1util.run_corr(ctx, binp, test, stream, n, env, timeout=tmo)
+        if t_end is not None and not ok:
+            continue  # (cut short by the search budget)
         ctx.log("%s: %d cases" % (test, len(ops)))
         if "no tests to run" in out:
             continue  # that harness file is not part of the binary (fallback build)
@@ -172,6 +186,27 @@ def run_wall(ctx, binp, corr_broken):
     for l in out.splitlines():
         if l.startswith("ORACLE-FAIL"):
             ctx.violation("wall-oracle:EARLY", l, "TestVerifWallClock seed %s\n%s\n" % (ctx.seed, l))
+    # the real queueScanLoop/queueScanWorker under sustained in-flight timeouts on one of several channels
+    for k in range(ctx.budget(1, 4)):
+        rc3, out3 = ctx.run_cmd([binp, "-test.run", "^TestVerifScanLoop$", "-test.count=1", "-test.timeout=120s"],
+                                timeout=150, env={"VERIF_SEED": ctx.seed + 100 * k, "VERIF_OUT": ctx.work})
+        if "no tests to run" in out3:
+            break
+        bad = [l for l in out3.splitlines() if l.startswith("ORACLE-FAIL")]
+        for l in bad:
+            ctx.violation("scanloop-oracle:" + l.split()[1].rstrip(":"), l, "TestVerifScanLoop with VERIF_SEED=%s\n%s\n"
+                          % (ctx.seed + 100 * k, "\n".join(bad)))
+        okl3 = [l for l in out3.splitlines() if l.startswith("SCANLOOP-")]
+        if okl3:
+            ctx.corr.setdefault("scan_loop", []).append(okl3[0])
+            ctx.evaluations += 1
+            if okl3[0].startswith("SCANLOOP-INCONCLUSIVE"):
+                ctx.notes.append(okl3[0])
+        elif not bad:
+            ctx.log("TestVerifScanLoop did not complete (rc=%s):\n%s" % (rc3, out3[-1500:]))
+            corr_broken.append("scan-loop harness exit %s" % rc3)
+        if bad:
+            break
     rc2, out2 = ctx.run_cmd([binp, "-test.run", "^TestVerifTouchTCP$", "-test.count=1", "-test.timeout=300s"],
                             timeout=330, env={"VERIF_SEED": ctx.seed, "VERIF_N": ctx.budget(30, 300), "VERIF_OUT": ctx.work})
     for l in out2.splitlines():
